@@ -57,16 +57,34 @@ def _evict(keep):
     ents.sort(key=lambda p: os.path.getmtime(p), reverse=True)
     now = time.time()
     for e in ents[4:]:
-        # never evict a directory that may be in use by a concurrent check (younger than 20 min)
+        # never evict a directory that may be in use by a concurrent check (used within the last 20 min)
         if now - os.path.getmtime(e) > 1200:
             shutil.rmtree(e, ignore_errors=True)
+            for l in os.listdir(CACHE):
+                if l.startswith(os.path.basename(e) + ".") and l.endswith(".lock"):
+                    try: os.unlink(os.path.join(CACHE, l))
+                    except OSError: pass
 
 def extract(config="default", repo=None, keep_target=False, log=None):
-    """returns dict(dir=<facts dir>, files=[...], target=<target dir or None>, cached=bool, wall_s=..)"""
+    """returns dict(dir=<facts dir>, files=[...], target=<target dir or None>, cached=bool, wall_s=..)
+    Concurrent checks of the same tree serialise on a lock file: one extracts, the others reuse its facts."""
+    import fcntl
     repo = repo or os.environ.get("MAY_REPO", "/repo")
-    ensure_driver()
-    t0 = time.time()
+    os.makedirs(CACHE, exist_ok=True)
+    with open(os.path.join(CACHE, "driver.lock"), "w") as lk:
+        fcntl.flock(lk, fcntl.LOCK_EX)
+        ensure_driver()
     th = tree_hash(repo)
+    with open(os.path.join(CACHE, "%s.%s.lock" % (th, config)), "w") as lk:
+        fcntl.flock(lk, fcntl.LOCK_EX)
+        try:
+            return _extract_locked(config, repo, keep_target, th)
+        finally:
+            try: os.utime(os.path.join(CACHE, th))       # mark the tree's cache as recently used
+            except OSError: pass
+
+def _extract_locked(config, repo, keep_target, th):
+    t0 = time.time()
     out = os.path.join(CACHE, th, config)
     marker = os.path.join(out, "OK")
     want_target = keep_target
